@@ -395,7 +395,12 @@ def judge(case, acc):
             for p in t.predecessors:
                 exp[(p.id, t.id)] += 1
         acc.count('links_checked', nlinks)
-        if bad or got != exp:
+        if not bad and got != exp and 0 in {t.id for t in tasks} and \
+                all(k[0] in ('S', 0) for k in list((exp - got).elements()) + list((got - exp).elements())):
+            # recorded finding F-V3: the start node is written with the node id 0, which is also a legal task id
+            viol('network/edges/task-id-0-collides-with-start-node',
+                 f'a task has id 0, the id of the Start node: missing {list((exp - got).elements())[:3]}, extra {list((got - exp).elements())[:3]}')
+        elif bad or got != exp:
             viol('network/edges' + name_mech(bad),
                  f'network edges differ: unparsable {bad[:2]}, missing {list((exp - got).elements())[:3]}, extra {list((got - exp).elements())[:3]}')
     except Exception as e:
